@@ -330,3 +330,68 @@ pub fn rejsearch(start: u64, count: u64, outfile: &str) {
         h.join().unwrap();
     }
 }
+
+/// `vh keysearch N start count out`: seeds whose key has a rare algebraic feature - the product of the NTT slots of f is 1
+/// (`f_product_one`), the top or the constant coefficient of the public key h is 0 (`h_top_zero`, `h_const_zero`).  The
+/// candidate stream is replayed with the exported `gen_poly` and the cheap guards; the first candidate that passes them is
+/// (almost always) the key, and the real key generation confirms each hit.
+pub fn keysearch(n: usize, start: u64, count: u64, outfile: &str) {
+    use rand::SeedableRng;
+    let next = Arc::new(AtomicU64::new(start));
+    let out = Arc::new(Mutex::new(std::io::BufWriter::new(std::fs::File::create(outfile).unwrap())));
+    let lim: i16 = if n == 512 { 32 } else { 16 };
+    let q = 12289.0f64;
+    let mut hs = vec![];
+    for _ in 0..16 {
+        let (next, out) = (next.clone(), out.clone());
+        hs.push(std::thread::Builder::new().stack_size(64 << 20).spawn(move || loop {
+            let i = next.fetch_add(1, Ordering::SeqCst);
+            if i >= start + count {
+                break;
+            }
+            let mut rng = rand::rngs::StdRng::from_seed(special_seed(i));
+            for _cand in 1..200 {
+                let f = vh::gen_poly(n, &mut rng);
+                let g = vh::gen_poly(n, &mut rng);
+                let m = f.iter().chain(g.iter()).map(|c| c.abs()).max().unwrap_or(0);
+                if m >= lim {
+                    continue;
+                }
+                let fq: Vec<u32> = f.iter().map(|&x| (x as i64).rem_euclid(12289) as u32).collect();
+                let fntt = vh::felt_fft(&fq);
+                if fntt.iter().any(|&v| v == 0) || vh::gram_schmidt_norm_squared(&f, &g) > 1.3689 * q {
+                    continue;
+                }
+                let gq: Vec<u32> = g.iter().map(|&x| (x as i64).rem_euclid(12289) as u32).collect();
+                let prod = fntt.iter().fold(1u64, |a, &v| a * v as u64 % 12289);
+                let h = vh::felt_ifft(&vh::felt_hadamard_div(&vh::felt_fft(&gq), &fntt));
+                let mut kinds = vec![];
+                if prod == 1 {
+                    kinds.push("f_product_one");
+                }
+                if h[n - 1] == 0 {
+                    kinds.push("h_top_zero");
+                }
+                if h[0] == 0 {
+                    kinds.push("h_const_zero");
+                }
+                if !kinds.is_empty() {
+                    // confirm with the real key generation
+                    let k = crate::keys::keygen_info(n, &special_seed(i));
+                    let same = k.b0[0].iter().zip(g.iter()).all(|(a, b)| a == b) && k.b0[1].iter().zip(f.iter()).all(|(a, b)| *a == -*b);
+                    if same {
+                        let mut o = out.lock().unwrap();
+                        for kd in kinds {
+                            writeln!(o, "{n} {i} {kd}").unwrap();
+                        }
+                        o.flush().unwrap();
+                    }
+                }
+                break;
+            }
+        }).unwrap());
+    }
+    for h in hs {
+        h.join().unwrap();
+    }
+}
